@@ -1,7 +1,7 @@
 (* C11 — lemmas: stacks of wrappers of any depth over the in-memory provider. *)
 From Coq Require Import List NArith ZArith Bool Lia.
 Import ListNotations.
-From VF Require Import C11.Model C11.Proofs C11.ProofsB C11.Corr.
+From VF Require Import C11.Model C11.Proofs C11.ProofsB C11.ProofsF C11.Corr.
 Local Open Scope N_scope.
 
 Fixpoint mem_stack (s : stack) : bool :=
@@ -21,7 +21,7 @@ Fixpoint stack_rel (s : stack) : St (prov_of s) -> store -> Prop :=
   | SLevel => fun _ _ => False
   | SCached s' => cached_rel (stack_rel s')
   | SBatched l s' => batched_rel l (stack_rel s')
-  | SFmt _ s' => fun _ _ => False
+  | SFmt f s' => fmt_rel (fmt_of f) (prov_of s') (stack_rel s')
   end.
 
 Lemma stack_sim s : mem_stack s = true -> sim wf_op false (prov_of s) (stack_rel s).
@@ -51,4 +51,49 @@ Proof.
   - cbn [rewrap]. pose proof (stack_sim s' H) as HS.
     destruct (bflush_rel wf_op false l (prov_of s') (stack_rel s') wf_op_batch HS x a Hr) as [_ [_ [_ H4]]].
     apply batched_rel_fresh. apply IH; assumption.
+Qed.
+
+(* ---------- stacks that also contain formatting layers (deterministic keys): guard = single-criterion queries ---------- *)
+Fixpoint plain_stack (s : stack) : bool :=
+  match s with
+  | SMem => true
+  | SLevel => false
+  | SCached s' | SBatched _ s' | SFmt _ s' => plain_stack s'
+  end.
+
+Lemma fmt_of_ok f : fmt_ok (fmt_of f).
+Proof. destruct f; [apply noop_ok|apply b64_ok]. Qed.
+Lemma wf1_wf o : wf1_op o = true -> wf_op o = true.
+Proof. unfold wf1_op. intros H. apply andb_prop in H as [H _]. exact H. Qed.
+Lemma wf1_op_batch q : forallb wf_bop q = true -> wf1_op (Batch q) = true.
+Proof. intros H. unfold wf1_op. cbn. rewrite H. reflexivity. Qed.
+
+Lemma plain_stack_sim s : plain_stack s = true -> sim wf1_op false (prov_of s) (stack_rel s).
+Proof.
+  induction s as [| |s' IH|l s' IH|f s' IH]; intros H; cbn in H; try discriminate.
+  - apply mem_sim.
+  - cbn [prov_of stack_rel]. apply cached_sim; [exact wf1_wf|reflexivity|apply IH; assumption].
+  - cbn [prov_of stack_rel]. apply batched_sim; [exact wf1_op_batch|apply IH; assumption|exact wf1_wf|reflexivity].
+  - cbn [prov_of stack_rel]. apply formatted_det_sim; [apply fmt_of_ok|apply IH; assumption].
+Qed.
+
+Lemma plain_stack_rel_init s : plain_stack s = true -> stack_rel s (init (prov_of s)) [].
+Proof.
+  induction s as [| |s' IH|l s' IH|f s' IH]; intros H; cbn in H; try discriminate.
+  - reflexivity.
+  - cbn. split; [apply IH; assumption|]. split; [apply cache_ok_nil|apply wf_store_nil].
+  - cbn. apply batched_rel_fresh. apply IH; assumption.
+  - cbn. unfold fmt_rel. cbn. apply IH; assumption.
+Qed.
+
+Lemma plain_stack_rel_rewrap s : plain_stack s = true -> forall x a, stack_rel s x a -> stack_rel s (rewrap s x) a.
+Proof.
+  induction s as [| |s' IH|l s' IH|f s' IH]; intros H x a Hr; cbn in H; try discriminate.
+  - exact Hr.
+  - destruct x as [m c]. destruct Hr as [H1 [H2 H3]]. cbn [rewrap fst snd] in *.
+    split; [apply IH; assumption|]. split; [apply cache_ok_nil|assumption].
+  - cbn [rewrap]. pose proof (plain_stack_sim s' H) as HS.
+    destruct (bflush_rel wf1_op false l (prov_of s') (stack_rel s') wf1_op_batch HS x a Hr) as [_ [_ [_ H4]]].
+    apply batched_rel_fresh. apply IH; assumption.
+  - cbn [rewrap stack_rel] in *. unfold fmt_rel in *. apply IH; assumption.
 Qed.
